@@ -141,6 +141,16 @@ def cases(tier, rng):
             if r[0] == "sse" and "RAISE" in [e for e in r[1] if isinstance(e, str)] and (ca is not None or sf is not None):
                 continue  # whether the relay task already hit the producer's exception is a schedule question: C06
             yield r[0], [r, ca, sf, wc]
+    # each recipe once more, after another response of the same kind (the next one in the list) was built and sent
+    rs = recipes(tier, rng)
+    by_kind = {}
+    for r in rs:
+        by_kind.setdefault(r[0], []).append(r)
+    for kind, l in by_kind.items():
+        for i, r in enumerate(l):
+            other = l[(i + 1) % len(l)]
+            if other is not r and not (kind in ("stream", "sse") and "RAISE" in [e for e in other[1] if isinstance(e, str)]):
+                yield "after-another-" + kind, [r, None, None, None, other]
 
 
 def search_cases(tier, rng, mism):
@@ -153,7 +163,7 @@ def enc_case(case):
         return [case[1], case[2], _q(case[2])]
     if len(case) == 2:
         return [resp.encode(case[0]), resp.phrase_of(200, 206, 400, 416), "vanish"]
-    r, ca, sf, wc = case
+    r, ca, sf, wc = case[:4]
     status = r[1] if r[0] == "plain" else (r[3] if r[0] == "small" else (r[2] if r[0] in ("redirect", "stream", "sse") else None))
     return [resp.encode(r), resp.phrase_of(status) if status is not None else resp.phrase_of(200, 206, 400, 416),
             [ca] if ca is not None else [], [sf] if sf is not None else [], [wc] if wc is not None else []]
@@ -231,7 +241,16 @@ def impl(case):
             if e[0] == "start":
                 e[2] = sorted([k.lower(), v] for k, v in e[2])
         return [aevs, aout, wevs, wout]
-    r, ca, sf, wc = case
+    r, ca, sf, wc = case[:4]
+    if len(case) > 4:
+        # another response of the same classes was built and sent first (in this process): what a response emits must not
+        # depend on it (class attributes, module-level state)
+        for iface in ("asgi", "wsgi"):
+            pre = resp.build(case[4], iface)
+            if iface == "asgi":
+                resp.trace_asgi(pre, util.http_scope(resp.method_of(case[4]), headers=[(k.encode(), v.encode("latin-1")) for k, v in resp.req_headers(case[4])]))
+            else:
+                resp.trace_wsgi(pre, util.wsgi_environ(resp.method_of(case[4]), headers=resp.req_headers(case[4])))
     a_app = resp.build(r, "asgi")
     scope = util.http_scope(resp.method_of(r), headers=[(k.encode(), v.encode("latin-1")) for k, v in resp.req_headers(r)])
     aevs, aout = resp.trace_asgi(a_app, scope, closed_after=ca, send_fails_at=sf)
@@ -282,7 +301,7 @@ def oracle(case, obs):
     if len(case) == 2:
         r, ca, sf, wc = case[0], None, 0, None     # a fault: judged as a prefix
     else:
-        r, ca, sf, wc = case
+        r, ca, sf, wc = case[:4]
     aevs, aout, wevs, wout = obs
     faulty = ca is not None or sf is not None
     # ---- ASGI
@@ -347,7 +366,7 @@ def nontrivial(case, obs):
         return any(c in case[2] for c in "\r\n\x00")
     if len(case) == 2:
         return True
-    r, ca, sf, wc = case
+    r, ca, sf, wc = case[:4]
     return ca is not None or sf is not None or wc is not None or r[0] in ("stream", "sse", "file")
 
 
@@ -358,7 +377,7 @@ def shrink(case):
         return
     if len(case) == 2:
         return
-    r, ca, sf, wc = case
+    r, ca, sf, wc = case[:4]
     if ca is not None or sf is not None or wc is not None:
         yield [r, None, None, None]
     if r[0] in ("stream", "sse"):
